@@ -100,3 +100,37 @@ for _cls in ('Field', 'Segment', 'SubComponent'):
              ensures=[('function_of_arguments', 'result == er7_of(self, encoding_chars, trailing_children)')],
              raises={}, modifies=[], allocates=False, properties=['C04'],
              notes='interface: the encoding is a function of the element, the delimiters and the flag (pure)')
+
+# ---- the position <-> name map on the encode side (C02): slot k of the children handed to the encoder is the by-name
+# index of the k-th name of the element's ordered_children - nothing else decides the position of a child in the text
+contract(
+    'hl7apy.core:ElementList.get_ordered_children',
+    sig={'self': 'ElementList'},
+    returns='list[list[Element]?]',
+    ensures=[
+        ('one_slot_per_ordered_name', 'len(result) == list_len(self.element.ordered_children)'),
+        ('slot_is_by_name_index', 'all(slot_at(result, k) is dget_ref(self.indexes, list_at_str(self.element.ordered_children, k)) '
+                                  'for k in range(list_len(self.element.ordered_children)))'),
+        ('fresh_list', 'is_fresh(result)'),
+    ],
+    raises={}, raises_only=[],
+    modifies=[],
+    allocates=['La.R', 'Ll'],
+    properties=['C02', 'C01', 'C11'],
+)
+
+contract(
+    'hl7apy.core:ElementList.get_children',
+    sig={'self': 'ElementList'},
+    returns='list[tuple[Element]]',
+    ensures=[
+        # C03 / C09: the insertion-order view handed to the TOLERANT encoders is exactly the children list, in order
+        ('one_slot_per_child', 'len(result) == len(self.list)'),
+        ('slot_is_the_child', 'all(tuple_first(result, k) is list_at(self.list, k) for k in range(len(self.list)))'),
+        ('fresh_list', 'is_fresh(result)'),
+    ],
+    raises={}, raises_only=[],
+    modifies=[],
+    allocates=['La.R', 'La.V', 'Ll'],
+    properties=['C03', 'C09', 'C01', 'C11'],
+)
